@@ -41,6 +41,9 @@ def gen_E(rng, tier, langs=LANGS):
                 ents.append(("runs", e))
             for _ in range(10 if q else 200):
                 ents.append(("random", rng.randbytes(el)))
+            if not q or el in (16, 28, 32):
+                for e in gens.extreme_entropies(rng, lang, el):
+                    ents.append(("extreme-words", e))
             for tag, e in ents:
                 lines.append("E %s %s" % (lang, hx(e)))
                 tags.append("E/%s/%d/%s" % (lang, el, tag))
@@ -216,6 +219,16 @@ def C09(tier, seed, st):
             mi = i0 if f[0] == "E" else i0.rsplit(" reads=", 1)[0]
             if mi != m:
                 res.corr_break(stream=f[0], case=ln, impl=i, model=m, why="model and implementation differ")
+    # the same accepted call repeated (same bytes from the source): it keeps succeeding
+    def judge_rep(op, r, sp):
+        f = op.split()
+        if f[0] == "N":
+            n = int(f[1])
+            d, _ = gens.delivered([(unhx(x.split(":")[0]), None if x.split(":")[1].split("@")[0] == "-" else "e") for x in f[3].split(",")]) if f[3] != "-" else (b"", None)
+            if n in WORD_COUNTS and len(d) >= n + n // 3 and not r.startswith("ok "):
+                return "an accepted word count with a working source must succeed, also when repeated: " + r[:80]
+        return judge_op_generator(op, r, sp)
+    run_Q(res, repeat_histories(rng, q), judge_rep)
     res.sample({"case": lines[17], "impl": impl[17], "expected": expect[17]})
     res.sample({"case": lines[-1], "impl": impl[-1], "expected": expect[-1]})
     res.streams["E"] = sum(1 for l in lines if l[0] == "E")
@@ -265,6 +278,20 @@ def C16(tier, seed, st):
         res.evaluations += 1
         if a != b:
             res.corr_break(stream="I", case=ln, impl=a, model=b, why="itoa differs from strconv.FormatInt")
+    # bit patterns with the top bit set, whatever the underlying integer type of Language is: the printed number must be
+    # the value as Go itself prints it with %d
+    ul = ["LU %d" % v for v in (2 ** 63, 2 ** 63 + 5, 2 ** 64 - 1, 2 ** 64 - 10, 2 ** 63 - 1, 10, 9, 0)]
+    for ln, r in zip(ul, common.run_impl(ul)):
+        res.evaluations += 1
+        res.count("LU")
+        f = r.split()
+        if len(f) != 3 or f[0] != "ok":
+            res.violation(stream="LU", case=ln, impl=r, model="", spec="returns normally", why="Language.String() panicked")
+            continue
+        num = f[2][4:]
+        got = unhx(f[1]).decode("utf-8", "replace")
+        if num.lstrip("-").isdigit() and not (0 <= int(num) <= 9) and got != "Language(%s)" % num:
+            res.violation(stream="LU", case=ln, impl=r, model="", spec="Language(%s)" % num, why="Language.String() of an unsupported value does not print its number")
     res.sample({"case": "L 9", "impl": impl[lines.index("L 9")]})
     res.sample({"case": "L -1", "impl": impl[lines.index("L -1")]})
     res.streams["L"] = len(lines)
@@ -364,6 +391,29 @@ def judge_common(tag, expect, icls, iv, sacc, scls, xs, lang):
     return None
 
 
+def affix_items(rng, tier, langs=LANGS):
+    """sentences whose LAST word is replaced by a list word that is a proper suffix/prefix of the correct last word
+    (and the other way round), and the same substitution at other positions"""
+    q = tier == "quick"
+    items = []
+    for lang in langs:
+        pairs_ = gens.affix_pairs(lang)
+        if not pairs_:
+            continue
+        for (w1, w2) in (rng.sample(pairs_, min(len(pairs_), 25)) if q else pairs_):
+            n = rng.choice(WORD_COUNTS)
+            for last, other in ((w1, w2), (w2, w1)):
+                idx = gens.sentence_ending_with(rng, n, last)
+                if idx is None:
+                    continue
+                items.append(("affix-last", lang, gens.sentence(lang, idx[:-1] + [other], b" "), None))
+                p_ = rng.randrange(n - 1)
+                idx2 = gens.sentence_with_word(rng, lang, n, p_, last)
+                idx2[p_] = other
+                items.append(("affix-inner", lang, gens.sentence(lang, idx2, b" "), None))
+    return items
+
+
 def valid_items(rng, tier, langs=LANGS):
     q = tier == "quick"
     items = []
@@ -436,6 +486,8 @@ def C02(tier, seed, st):
             res.violation(stream=ln[0], case=ln, impl=i, model="", spec="a mnemonic", why="generator failed on a valid size")
     run_C(res, back, judge)
     res.streams["E+N"] = len(gl)
+    # valid sentences validated AFTER failing validations (and after each other) in one process
+    run_Q(res, validator_pair_histories(rng, rng.sample(LANGS, 2) if tier == "quick" else LANGS, tier == "quick"), judge_op_validator)
     return res
 
 
@@ -515,6 +567,29 @@ def validator_pair_histories(rng, langs, quick):
                     hist.append([ops[a], ops[b]])
         for _ in range(10):
             hist.append([rng.choice(ops) for _ in range(rng.randrange(3, 8))])
+    return hist
+
+
+def repeat_histories(rng, quick):
+    """the SAME call (same arguments, for NewMnemonic the same bytes from the source) several times in a row"""
+    hist = []
+    for lang in (rng.sample(LANGS, 3) if quick else LANGS):
+        for n in (rng.sample(WORD_COUNTS, 2) if quick else WORD_COUNTS):
+            need = n + n // 3
+            sc = gens.script_str([(rng.randbytes(need), None)])
+            sc2 = gens.script_str([(p_, None) for p_ in gens.fragment(rng, rng.randbytes(need), 3)])
+            hist.append(["N %d %s %s" % (n, lang, sc)] * 3)
+            hist.append(["N %d %s %s" % (n, lang, sc), "N %d %s %s" % (n, lang, sc2), "N %d %s %s" % (n, lang, sc), "N %d %s %s" % (n, lang, sc)])
+            e = hx(rng.randbytes(need))
+            hist.append(["E %s %s" % (lang, e)] * 3)
+            sent = hx(gens.sentence(lang, gens.indices_of_entropy(rng.randbytes(need))))
+            hist.append(["C %s %s" % (lang, sent)] * 3)
+        hist.append(["L %s" % lang] * 3)
+    # a source that answers (0, nil) many times before delivering, then an ordinary call
+    for k in (3, 150):
+        sc = gens.script_str([(b"", None)] * k + [(rng.randbytes(16), None)])
+        ordinary = gens.script_str([(b"", None), (rng.randbytes(16), None)])
+        hist.append(["N 12 English %s" % sc, "N 12 English %s" % ordinary, "N 12 English %s" % gens.script_str([(b"", None)] * (k + 60)), "N 12 English %s" % ordinary])
     return hist
 
 
@@ -603,6 +678,7 @@ def C03(tier, seed, st):
                         i2 = list(idx)
                         i2[p] = w
                         items.append(("subst", lang, gens.sentence(lang, i2, b" "), None))
+    items += affix_items(rng, tier)
     # unsupported Language values never accept
     for u in UNSUPPORTED:
         idx = gens.indices_of_entropy(rng.randbytes(16))
@@ -685,6 +761,16 @@ def C15(tier, seed, st):
                 items.append(("unknown-two", lang, b" ".join(ws), None))
                 # count and words wrong: the count wins
                 items.append(("count-and-unknown", lang, b" ".join([b"qq"] * (n + 1)), None))
+    items += affix_items(rng, tier)
+    # unknown tokens that look like formatting directives
+    for lang in LANGS:
+        idx = gens.indices_of_entropy(rng.randbytes(16))
+        ws = [gens.table(lang)[i] for i in idx]
+        for tok in (b"lottery%20tool", b"%s", b"100%d", b"%v%v", b"a%", b"%!d(MISSING)", b"%[3]*.[2]*[1]f"):
+            p_ = rng.randrange(12)
+            w2 = list(ws)
+            w2[p_] = tok
+            items.append(("unknown-percent", lang, b" ".join(w2), None))
     run_C(res, items, lambda *a: judge_common(*a))
     # the same kinds of sentences one after another in one process: the class must not depend on what came before
     run_Q(res, validator_pair_histories(rng, rng.sample(LANGS, 2) if q else LANGS, q), judge_op_validator)
@@ -803,6 +889,11 @@ def C06(tier, seed, st):
                 for e in gens.ERR_KINDS:
                     add(n, lang, [(data[:k], e)], "fail-with-bytes")
                     add(n, lang, [(data[:k], None), (b"", e)], "fail-after-bytes")
+                if not q or k % 4 == 2:
+                    # the error is reported ONCE (with or without bytes) and the source would deliver more if read again
+                    e = rng.choice(gens.ERR_KINDS)
+                    add(n, lang, [(data[:k], e), (data[k:], None)], "error-once-then-data")
+                    add(n, lang, [(data[:k], None), (b"", e), (data[k:], None)], "error-once-then-data")
                 if not q or k % 4 == 1:
                     # a source that KEEPS failing (the same error on every further read), with bytes trickling in or not
                     e = rng.choice(gens.ERR_KINDS)
@@ -939,6 +1030,7 @@ def C13(tier, seed, st):
     # validator inputs of every kind after one another; seed derivations after one another
     hist += validator_pair_histories(rng, rng.sample(LANGS, 2) if q else LANGS, q)
     hist += seed_histories(rng, q)
+    hist += repeat_histories(rng, q)
     # generation after validation
     hist += warm_E_histories(rng, LANGS, lambda lang: ["E %s %s" % (lang, hx(rng.randbytes(rng.choice(ENT_LENS)))) for _ in range(4)])
     # random histories
@@ -1295,6 +1387,12 @@ def s_inputs(rng, tier):
         p_ = rng.choice(["pass e", "caf", "x", ""]) + u(rng.choice(hi)) * rng.randrange(1, 3)
         pairs.append((m.encode(), p_.encode()))
         pairs.append((p_.encode(), m.encode()))
+    # long arguments with an out-of-order pair of marks at many offsets (around powers of two and buffer-like sizes)
+    for base in (32, 64, 128, 256, 512, 1024, 4096) if not q else (64, 512, 4096):
+        for off in range(base - 4, base + 3):
+            body = "a" * max(0, off - 1) + "e" + u(0x301, 0x323) + "z"
+            pairs.append((body.encode(), b"pw"))
+            pairs.append((b"m", body.encode()))
     # invalid UTF-8 (extra: the property speaks of valid UTF-8 only; the model covers all byte strings)
     for _ in range(10 if q else 200):
         pairs.append((rng.randbytes(rng.randrange(1, 40)), rng.randbytes(rng.randrange(0, 20))))
@@ -1544,6 +1642,8 @@ def C17(tier, seed, st):
         for k, n in enumerate(names):
             cnt = (9000, 30000, 150000)[k % 3] if (k < 3 or not q) else 50
             big[n] = b"\n".join(tool_word(rng) for _ in range(cnt)) + b"\n"
+        # a single very long word (beyond 64 KiB, beyond 1 MiB) among ordinary ones
+        big[names[0]] = b"\n".join([tool_word(rng), ("ab" * 40000).encode(), tool_word(rng), ("z" + u(0x301)) .encode() * 400000, tool_word(rng)]) + b"\n"
         rounds.append(("long", big, True))
         rounds.append(("regenerate-shorter", {n: b"\n".join(tool_word(rng) for _ in range(3)) + b"\n" for n in names}, True))
         # outside the domain (quotes, backslashes, markup, CR): recorded against the model, the property does not judge them
@@ -1669,6 +1769,7 @@ def C12(tier, seed, st):
     uniq = sorted(set(op for p_ in progs for g in p_ for op in g if op[0] != "N"))
     alone = dict(zip(uniq, [r.split(" BUFFERS-CHANGED")[0] for r in common.run_impl(["Q " + op for op in uniq])]))
     outs = common.run_race(progs)
+    drawn = []   # (language, mnemonic hex, case) of every concurrent default-source NewMnemonic
     for prog, (rows, race, rc, err) in zip(progs, outs):
         res.evaluations += 1
         res.count("race/goroutines=%d" % len(prog))
@@ -1692,8 +1793,10 @@ def C12(tier, seed, st):
                 if op[0] == "N":
                     n = int(op.split()[1])
                     want = "ok words=%d" % n if n in WORD_COUNTS else "err wordlen"
-                    if r != want:
+                    if r.split(" ")[:2] != want.split(" "):
                         bad = (op, r, want)
+                    elif n in WORD_COUNTS:
+                        drawn.append((op.split()[2], r.split(" ")[2], case))
                 elif r != alone[op]:
                     bad = (op, r, alone[op])
             if len(row) != len(g):
@@ -1701,11 +1804,33 @@ def C12(tier, seed, st):
         if bad:
             res.violation(stream="race", case=case[:6000], failing_op=bad[0], impl=bad[1], model="", spec=bad[2],
                           why="a call returned something else than when run alone")
+    check_drawn(res, drawn)
     res.sample({"program": [g for g in progs[0][:2]], "goroutines": len(progs[0])})
     res.streams["race-processes"] = len(progs)
     res.streams["alone"] = len(uniq)
     res.notes.append("implrun built with go build -race -tags verif; every program runs in a fresh process; goroutines are released together by a barrier")
     return res
+
+
+def check_drawn(res, drawn):
+    """mnemonics drawn concurrently from the default source: each must be a valid sentence of its language (checksum
+    intact: not assembled from another call's bytes), not the all-zero entropy, and all pairwise distinct"""
+    lines = ["C %s %s" % (lang if lang in LANGS else "English", mn) for lang, mn, _ in drawn]
+    spec = common.run_model(lines, "spec") if lines else []
+    seen = {}
+    for (lang, mn, case), ln, sp in zip(drawn, lines, spec):
+        res.evaluations += 1
+        res.count("N/concurrent-default-source")
+        why = None
+        if not sp.startswith("accept"):
+            why = "a mnemonic returned by a concurrent NewMnemonic is not a valid sentence (%s)" % sp[:60]
+        elif mn in seen:
+            why = "two concurrent NewMnemonic calls returned the same mnemonic"
+        elif unhx(mn).split(gens.sep(lang) if lang in LANGS else b" ")[:4] == [gens.table(lang if lang in LANGS else "English")[0]] * 4:
+            why = "a concurrent NewMnemonic returned a mnemonic of (nearly) all-zero entropy"
+        seen[mn] = True
+        if why:
+            res.violation(stream="race", case=case[:4000], failing_op=ln[:400], impl=mn[:200], model="", spec=sp[:100], why=why)
 
 
 def json_key(x):
@@ -1800,6 +1925,28 @@ def C07(tier, seed, st):
         if dev > 8:
             res.violation(stream="G", case=gl[0], impl="byte 0x%02x occurs %d times in %d bytes (%.1f sigma)" % (worst, cnt[worst], N, dev), model="",
                           spec="uniform bytes", why="default-source entropy bytes are not uniformly distributed")
+    # (4) the same draws made CONCURRENTLY (the default source is shared by all goroutines)
+    ok, log = common.build_race()
+    if ok:
+        progs = [[["N %d %s -" % (rng.choice(WORD_COUNTS), rng.choice(LANGS)) for _ in range(12)] for _ in range(g)] for g in ((8, 16) if q else (2, 4, 8, 16, 16, 16))]
+        drawn = []
+        for prog, (rows, race, rc, err) in zip(progs, common.run_race(progs)):
+            res.evaluations += 1
+            case = "race " + " || ".join("|".join(g) for g in prog)
+            if race or rc != 0 or len(rows) != len(prog):
+                res.violation(stream="race", case=case[:3000], impl=(race or "rc=%s %s" % (rc, err[-400:]))[:1500], model="", spec="no data race, normal completion",
+                              why="concurrent NewMnemonic on the default source raced or crashed")
+                continue
+            for g, row in zip(prog, rows):
+                for op, r in zip(g, row):
+                    if r.startswith("ok words="):
+                        drawn.append((op.split()[2], r.split(" ")[2], case))
+                    else:
+                        res.violation(stream="race", case=case[:3000], failing_op=op, impl=r[:200], model="", spec="a mnemonic", why="concurrent NewMnemonic failed")
+        check_drawn(res, drawn)
+        res.streams["race-processes"] = len(progs)
+    else:
+        res.corr_break(stream="race", case="-", why="implrun does not build with -race: " + log[-300:])
     res.sample({"case": "W", "impl": "default-is-crypto-rand=true restored=true"})
     res.sample({"case": lines[0], "impl": impl[0]})
     res.streams.update({"W": len(envs), "N": len(lines), "G": len(dl)})
